@@ -95,7 +95,13 @@ class safe:
         try:
             return self.func(x)
         except Exception as e:  # noqa: BLE001
-            return {"__error__": type(e).__name__, "text": str(e)[:2000], "tb": traceback.format_exc()[-8000:]}
+            t = str(e)
+            if len(t) > 2000:  # engines put their own message after the (long) SQL text: keep both ends
+                t = t[:1300] + " ... " + t[-700:]
+            out = {"__error__": type(e).__name__, "text": t, "tb": traceback.format_exc()[-8000:]}
+            if isinstance(getattr(e, "partial", None), dict):
+                out["partial"] = e.partial  # what the worker had produced before the real code raised
+            return out
 
 
 class HarnessError(RuntimeError):
